@@ -153,6 +153,7 @@ func metaAt(mm *meta.Module, p dm.Path, leaf string) meta.Definition {
 
 func c08Run(c c08Case, o *hx.Obs) {
 	root := c.Module.Root()
+	schemaClasses(o, c.Module)
 	mm, err := loadDM(c.Module)
 	if err != nil {
 		o.Failf("harness|schema-rejected", "generated schema does not load: %v\n%s", err, c.Module.Yang())
